@@ -13,7 +13,9 @@ for f in sorted(glob.glob(os.path.join(V, 'evidence', 'C*.json'))):
     e = json.load(open(f))
     read = set(e['coverage'].get('source_files_read') or [])
     fns = {x['fn'].split('::')[0] for x in e['coverage'].get('functions_under_contract', [])}
-    if (read | fns) & set(changed) or e['property_id'] == own:
+    # REFSWEEP_NARROW: only the properties that have a function of a changed file under contract (a third of the work)
+    sel = fns if os.environ.get('REFSWEEP_NARROW') else (read | fns)
+    if sel & set(changed) or e['property_id'] == own:
         props.append(e['property_id'])
 S = tempfile.mkdtemp(prefix='refsweep_', dir='/var/tmp')
 try:
